@@ -348,6 +348,23 @@ pub fn merkle_branch(rng: &mut Rng, n: usize) -> Vec<u8> {
     v.extend_from_slice(&(rng.next() as u32).to_le_bytes());
     v
 }
+/// a merkle branch whose length prefix is written in a CompactSize of `width` bytes (0 = minimal; 3 / 5 / 9 = the 0xfd / 0xfe / 0xff forms)
+pub fn merkle_branch_w(rng: &mut Rng, n: usize, width: usize) -> Vec<u8> {
+    let mut v = if width == 0 { compact(n as u64) } else { compact_w(n as u64, width) };
+    for _ in 0..n { v.extend(rng.bytes(32)); }
+    v.extend_from_slice(&(rng.next() as u32).to_le_bytes());
+    v
+}
+pub fn aux_section_w(rng: &mut Rng, segwit_coinbase: bool, n1: usize, w1: usize, n2: usize, w2: usize) -> Vec<u8> {
+    let mut cb = TxSpec::new(vec![TxIn::coinbase(rng.next() as u32)], vec![TxOut::new(25_0000_0000, p2pkh_script(&[3; 20])), TxOut::new(0, vec![0x6a, 0x24, 0xaa, 0x21, 0xa9, 0xed])]);
+    cb.inputs[0].script_sig = rng.bytes(60);
+    if segwit_coinbase { cb.witness = Some(vec![vec![vec![0u8; 32]]]); }
+    let mut v = cb.ser();
+    v.extend(rng.bytes(32));
+    v.extend(merkle_branch_w(rng, n1, w1)); v.extend(merkle_branch_w(rng, n2, w2));
+    v.extend(rng.bytes(80));
+    v
+}
 pub fn aux_section(rng: &mut Rng, segwit_coinbase: bool, n1: usize, n2: usize) -> Vec<u8> {
     let mut cb = TxSpec::new(vec![TxIn::coinbase(rng.next() as u32)], vec![TxOut::new(25_0000_0000, p2pkh_script(&[3; 20])), TxOut::new(0, vec![0x6a, 0x24, 0xaa, 0x21, 0xa9, 0xed])]);
     cb.inputs[0].script_sig = rng.bytes(60);
